@@ -172,11 +172,65 @@ def r17_4(repo: Repo) -> RuleResult:
     return rr
 
 
-RULES = [r17_1, r17_2, r17_3, r17_4]
+def _factors(e: ast.AST) -> List[ast.AST]:
+    if isinstance(e, ast.BinOp) and isinstance(e.op, ast.Mult):
+        return _factors(e.left) + _factors(e.right)
+    return [e]
+
+
+def r17_5(repo: Repo) -> RuleResult:
+    """KL(posterior || baseline) is a sum with one term per row.  Whatever the loop shape, a conditional that adds a
+    term on one arm only drops that row's term on the other arm: that is sound only when the skipped term is zero,
+    i.e. the test is `p > 0` for the very probability p the term multiplies its logarithm with (0 log 0 = 0)."""
+    from .common import rel_of
+
+    rr = RuleResult("R17.5", "every row contributes its term to the exact-prior divergence: a term is skipped only when its own probability is zero", floor=1)
+    f = repo.func(IW, "column_kl_divergence_exact_prior")
+    rets = [n for n in walk_no_nested(f.node) if isinstance(n, ast.Return) and isinstance(n.value, ast.Name)]
+    if len(rets) != 1:
+        raise AnalysisError("R17.5: the exact-prior kernel does not return its accumulator by name")
+    acc = rets[0].value.id
+
+    def adds(stmts) -> List[ast.AugAssign]:
+        return [x for st in stmts for x in ast.walk(st) if isinstance(x, ast.AugAssign) and isinstance(x.op, ast.Add) and norm(x.target) == acc]
+
+    if not adds(f.node.body):
+        raise AnalysisError("R17.5: no `%s += ...` accumulation found in the exact-prior kernel" % acc)
+    for n in walk_no_nested(f.node):
+        if not isinstance(n, ast.If):
+            continue
+        a, b = adds(n.body), adds(n.orelse)
+        if not a and not b:
+            continue
+        construct = "if %s" % short(n.test, 50)
+        if a and b:
+            rr.ok(f, construct, "both arms add a term", n.lineno)
+            continue
+        side = a or b
+        r = rel_of(n.test)
+        # the probability the (single) skipped term is built from
+        ok = False
+        if a and r is not None and r[0] == "lt" and r[1] in ("0", "0.0"):
+            for x in side:
+                if any(norm(t) == r[2] or norm(expand_locals(t, f, 3)) == r[2] for t in _factors(x.value)):
+                    ok = True
+        if ok:
+            rr.ok(f, construct, "one-armed, and the test is on the term's own probability (0 log 0 = 0)", n.lineno)
+        else:
+            rr.bad(f, construct,
+                   "a row's term is added only when `%s`; that is not the term's own probability being positive, so rows failing the "
+                   "test lose their contribution (an explicitly stored zero count still has posterior mass prior_strength * baseline / norm): "
+                   "the weight is no longer the KL divergence and depends on the storage of zeros" % norm(n.test), n.lineno)
+    return rr
+
+
+RULES = [r17_1, r17_2, r17_3, r17_4, r17_5]
 CLAIM = (
     "R17.1 every path of information_weight to the binary-search kernel passes sort_indices() on the very matrix whose "
     "arrays are handed over; R17.2 on every path each weight vector's last write before np.power is np.maximum(., 0.0); "
     "R17.3 transform returns X @ diags(fitted weights) and nothing else; R17.4 the searchsorted position in the exact-prior "
-    "kernel is membership-guarded."
+    "kernel is membership-guarded (or the kernel walks its stored entries by position); R17.5 in the exact-prior kernel a "
+    "conditional that adds a term of the divergence on one arm only tests that term's own probability (`p > 0`): no row's "
+    "contribution is dropped for another reason (explicit zeros keep their prior mass)."
 )
 NOT_DECIDED = "the KL identity, finiteness and permutation equivariance of the weights (numerical)."
